@@ -67,6 +67,10 @@ func Alphabet(p int) []*Def {
 		{Disc: 1, Doc: []string{" first branch"}, Rec: &Def{Kind: Message, Name: n("UoA"), Fields: []Field{{Name: "b", Index: 1, Type: S("uint32")}}}},
 		{Disc: 3, Dep: str("old branch"), Rec: &Def{Kind: Struct, Name: n("UoB"), Fields: []Field{{Name: "c", Type: S("bool")}}}},
 		{Disc: 200, Rec: &Def{Kind: Struct, Name: n("UoC")}}}})
+	add("empty-deprecation-messages", &Def{Kind: Union, Name: n("Ue"), Branches: []Branch{
+		{Disc: 1, Dep: str(""), Rec: &Def{Kind: Struct, Name: n("UeA"), Fields: []Field{{Name: "a", Type: S("int32"), Dep: str("")}}}},
+		{Disc: 2, Rec: &Def{Kind: Message, Name: n("UeB"), Fields: []Field{{Name: "b", Index: 1, Type: S("string"), Dep: str("")}}}}}})
+	add("enum-empty-deprecation", &Def{Kind: Enum, Name: n("Ee"), Members: []Member{{Name: "A", Expr: "1", U: 1, Dep: str("")}, {Name: "B", Expr: "2", U: 2}}})
 	add("const-uint64-hex", &Def{Kind: Const, Name: n("cu"), CType: "uint64", CText: "0xFFFFFFFFFFFFFFFF", CValue: "0xFFFFFFFFFFFFFFFF"})
 	add("const-int-neg", &Def{Kind: Const, Name: n("cn"), CType: "int64", CText: "-9223372036854775808", CValue: "-9223372036854775808"})
 	add("const-float", &Def{Kind: Const, Name: n("cf"), CType: "float64", CText: "1.5e3", CValue: "1.5e3"})
